@@ -18,6 +18,7 @@ EXPLANATION = (
     "order-insensitive aggregates after the thread-pool join; the early-exit shutdown happens after the "
     "sat output is recorded; the process exit code is the complement count. It does not execute "
     "fault sequences or schedules."
+    ' Also evaluated here: the solver-reply reader of C11 R11.3 (a truncated reply must not yield a core).'
 )
 ASSUMPTIONS = [
     "CPython list.append is atomic under the GIL",
